@@ -279,6 +279,15 @@ void HttpMessage::readHeaders()
 			return;
 		}
 		headerName = line.substring(0, i);
+		// a field name is a token (RFC 7230 3.2): stored with a blank or tab before the ':' ("Content-Length : 5") it would
+		// hide the field from header()/hasHeader() and with it the framing of the body; like a line without ':'
+		bool validName = i > 0;
+		for (int k = 0; validName && k < i; k++)
+			validName = (unsigned char)headerName[k] > ' ' && headerName[k] != 127;
+		if (!validName) {
+			_socket->close();
+			return;
+		}
 		headerValue = line.substring(i + 1).trimmed(); // the space after ':' is optional
 		_headers[capitalized(headerName)] = headerValue; // stored as received: a field with an empty value is a field (setHeader would remove it)
 	}
@@ -852,7 +861,7 @@ void HttpMessage::writeFile(const String& path, int begin, int end)
 
 bool HttpMessage::putFile(const String& path, int begin, int end)
 {
-	bool whole = !_headersSent; // headers and body are written here: a chunked message also ends here
+	bool whole = !_headersSent || _ownChunks; // headers and body are written here, or the chunks are the library's own: a chunked message also ends here
 	File file(path);
 	if (!file.exists())
 	{
@@ -914,6 +923,7 @@ bool HttpMessage::putFile(const String& path, int begin, int end)
 
 	if (whole && endsChunked(header("Transfer-Encoding")))
 		*_socket << "0\r\n\r\n"; // last chunk
+	_ownChunks = false;
 
 	return true;
 }
